@@ -138,6 +138,27 @@ Section LoopProofs.
   Definition H_ORIGIN_REV : Prop :=
     forall vs, origin_of (invert_verts vs (origin_of vs)) = negb (origin_of vs).
 
+  (** the same with the premise for THIS vertex list only (it is used once, for an odd number of
+      Inverts): this is the form that Proofs/C13_OriginRev.v discharges for the real predicates *)
+  Theorem invert_matches_fresh_at (vs : list V) (h : list lop) :
+    origin_of (invert_verts vs (origin_of vs)) = negb (origin_of vs) ->
+    canonical_loop vs (origin_of vs) ->
+    let vs' := fst (iter_invert (count_inverts h) vs (origin_of vs)) in
+    exists l1 l2 o1 o2,
+      lrun vs (h ++ [LQuery]) = Ok (l1, o1) /\ lrun vs' [LQuery] = Ok (l2, o2) /\
+      last o1 (vs, origin_of vs, []) = last o2 (vs, origin_of vs, []).
+  Proof.
+    intros HR Hc vs'.
+    destruct (loop_history vs (h ++ [LQuery])) as (l1 & H1).
+    destruct (loop_history vs' [LQuery]) as (l2 & H2).
+    eexists l1, l2, _, _. split; [exact H1|]. split; [exact H2|].
+    rewrite lspec_last. cbn [lspec last].
+    assert (snd (iter_invert (count_inverts h) vs (origin_of vs)) = origin_of vs') as Ho.
+    { subst vs'. rewrite invert_parity by exact Hc. destruct (Nat.even (count_inverts h)); cbn [fst snd]; [reflexivity|].
+      symmetry. exact HR. }
+    subst vs'. rewrite <- Ho. destruct (iter_invert (count_inverts h) vs (origin_of vs)); reflexivity.
+  Qed.
+
   Theorem invert_matches_fresh (HR : H_ORIGIN_REV) (vs : list V) (h : list lop) :
     canonical_loop vs (origin_of vs) ->
     let vs' := fst (iter_invert (count_inverts h) vs (origin_of vs)) in
